@@ -83,7 +83,7 @@ func runC02(c *core.Ctx) {
 	c.Inc("admitted")
 	c.Add("option_values_bound", nvals)
 	c.Add("positionals_bound", nargs)
-	hasDD := strings.Contains(p.Spec, "--")
+	hasDD := p.HasDD()
 	// conservation + option part for --free specs: the reader's occurrences, per option, in order
 	if !hasDD {
 		items, stop := gen.ReadAll(p, argv)
